@@ -4,7 +4,7 @@ usage: seeded_verify.py <property-id> <agent-worktree> [<name>]
 The agent worktree must contain SEEDED/patch.diff and a demo test file (*_test.go, new, outside SEEDED/).
 Steps (all in a FRESH scratch worktree of /repo's HEAD, removed afterwards):
   1 patch applies, builds; 2 the unedited suite passes with the patch; 3 the demo fails with the patch;
-  4 the demo passes without it; 5 apply the patch to /repo, run ./check <id> quick, undo (git checkout).
+  4 the demo passes without it; 5 with the patch applied in that worktree run VERIF_REPO=<worktree> ./check <id> quick.
 Writes /verif/seeded/<name>/{patch.diff, demo test, NOTES.md, meta.json}."""
 import json, os, re, shutil, subprocess, sys, glob
 pid, wt = sys.argv[1], sys.argv[2]
@@ -51,22 +51,25 @@ try:
     meta["demo_passes_without_change"] = wo.returncode == 0
     if wo.returncode != 0:
         meta["demo_output_without_change"] = wo.stdout[-1200:]
-finally:
-    sh(f"git -C /repo worktree remove --force {scratch}")
-# our check against the change
-assert sh("git -C /repo status --porcelain").stdout.strip() == "", "/repo dirty"
-ap = sh(f"git -C /repo apply {patch}")
-assert ap.returncode == 0, ap.stderr
-try:
-    c = sh(f"cd {V} && VERIF_BUDGET_S=900 ./check {pid} quick")
+    # our check against the change: in the same scratch worktree (VERIF_REPO), so that /repo stays untouched
+    # and several intakes can run side by side
+    ap = sh(f"git apply {patch}", cwd=scratch)
+    assert ap.returncode == 0, ap.stderr
+    for d in demos:
+        os.remove(os.path.join(scratch, d))
+    c = sh(f"cd {V} && VERIF_REPO={scratch} VERIF_BUDGET_S=900 ./check {pid} quick")
     viol = [l for l in c.stdout.splitlines() if l.startswith("VIOLATION")]
-    meta["check_cmd"] = f"./check {pid} quick"
+    meta["check_cmd"] = f"VERIF_REPO=<scratch worktree with the patch> ./check {pid} quick"
     meta["check_exit"] = c.returncode
     meta["check_violation_lines"] = len(viol)
     meta["check_first_detail"] = next((l.strip() for l in c.stdout.splitlines() if l.startswith("  kind=")), "")[:400]
     meta["caught_by_own_property_check"] = c.returncode == 1 and bool(viol)
 finally:
-    sh("git -C /repo checkout -- .")
+    sh(f"git -C /repo worktree remove --force {scratch}")
+    tag = sh(f'echo "{scratch}" | md5sum | cut -c1-8').stdout.strip()
+    shutil.rmtree(os.path.join(V, "alt", "run-" + tag), ignore_errors=True)
+    for c in ("verif-overlay-", "verif-vmap-"):
+        shutil.rmtree(os.path.expanduser("~/.cache/" + c + tag), ignore_errors=True)
 out = os.path.join(V, "seeded", name)
 os.makedirs(out, exist_ok=True)
 shutil.copy(patch, os.path.join(out, "patch.diff"))
